@@ -4,9 +4,13 @@ Model: lean/StraxModel/Model/Peaks.lean (namespace Strax.Peaks); theorems: Props
 Lemmas/Peaks.lean); driver ops `c19.*` in Driver/C19.lean.
 Tie: differential correspondence of find_peaks, store_downsampled_waveform, sum_waveform, _merge_peaks,
 replace_merged, add_lone_hits, PeakSplitter._split_peaks (driven by a table split finder),
-symmetric_moving_average, index_of_fraction, compute_widths and highest_density_region against the
-compiled Lean driver.
+LocalMinimumSplitter.find_split_points, symmetric_moving_average, index_of_fraction, compute_widths and
+highest_density_region against the compiled Lean driver; `epoch/*` components repeat the time-dependent ones with
+all times shifted to ~1.7e18 ns; strax.split_peaks with both real splitters end to end (oracle only; the
+NaturalBreaksSplitter has no model op of its own).
 Oracle: the property's own wording, evaluated with fractions.Fraction on what the real functions return.
+Open findings the oracles can hit (known_findings.json, each pinned to component + kind): D11-downsampling-tail,
+D11-split-fragment-shortened, find-peaks-duration-cut-overlap, find-peaks-duration-double-left.
 
 The real functions are numba kernels that take 20-40 s each to compile, so the implementation side of every
 component is evaluated in forked worker processes (one per function family) that run in parallel; the
